@@ -5,6 +5,8 @@
 // on uninitialised heap memory or on allocation history shows up as a difference; ASan/UBSan (always on) turn
 // out-of-bounds accesses, use-after-free and leaks of owned arrays into a crash that the driver script records.
 // Op:  pipe <coarsening> <relaxation> <solver> <coarse_enough> <max_levels> <direct_coarse> <npre> <npost> <ncycle> <maxiter> A f
+//      papply <class 0 amg|1 relaxation|2 dummy> <coarsening> <relaxation> <coarse_enough> <max_levels> <direct_coarse> A f
+//             (preconditioner.apply(rhs, x) with the OUTPUT vector x allocated uninitialised, i.e. holding the fill pattern)
 // The values are small dyadic rationals, converted to double exactly.  Implementation-only harness (no model line).
 #include "gen.hpp"
 #include <new>
@@ -35,6 +37,7 @@ void operator delete[](void *p, std::size_t) noexcept { std::free(p); }
 #include <amgcl/solver/runtime.hpp>
 #include <amgcl/coarsening/runtime.hpp>
 #include <amgcl/relaxation/runtime.hpp>
+#include <amgcl/preconditioner/runtime.hpp>
 #include <amgcl/adapter/crs_tuple.hpp>
 #include <boost/property_tree/ptree.hpp>
 using namespace vh;
@@ -80,7 +83,45 @@ static Out run_once(const Case &k, int fill_mode) {
     return o;
 }
 
+typedef amgcl::runtime::preconditioner<Backend> RPrecond;
+static const char *pclasses[] = { "amg", "relaxation", "dummy" };
+
+struct PCase { long cls, c, r, ce, ml, dc; Mat A; std::vector<Q> f; };
+static Out papply_once(const PCase &k, int fill_mode) {
+    Out o;
+    std::vector<ptrdiff_t> ptr(k.A.ptr), col(k.A.col); std::vector<double> val(k.A.val.size()), rhs(k.f.size());
+    for (size_t i = 0; i < val.size(); ++i) val[i] = k.A.val[i].v.get_d();
+    for (size_t i = 0; i < rhs.size(); ++i) rhs[i] = k.f[i].v.get_d();
+    boost::property_tree::ptree prm;
+    prm.put("class", pclasses[k.cls]);
+    if (k.cls == 0) { prm.put("coarsening.type", coarsenings[k.c]); prm.put("relax.type", relaxations[k.r]); prm.put("coarse_enough", k.ce); prm.put("max_levels", k.ml); prm.put("direct_coarse", k.dc != 0); }
+    else if (k.cls == 1) prm.put("type", relaxations[k.r]);
+    poison::mode = fill_mode;
+    try {
+        RPrecond P(std::tie(k.A.n, ptr, col, val), prm);
+        double *xraw = new double[k.A.n ? k.A.n : 1];            // output vector: never initialised by the caller
+        auto X = amgcl::make_iterator_range(xraw, xraw + k.A.n);
+        P.apply(rhs, X);
+        poison::mode = -1;
+        o.tag = "ok"; o.x.assign(xraw, xraw + k.A.n); delete[] xraw;
+    } catch (const amgcl::error::empty_level&) { poison::mode = -1; o.tag = "empty_level"; }
+    catch (const std::exception &e) { poison::mode = -1; o.tag = "exception"; }
+    return o;
+}
+
+static Result execute_papply(const Toks &t) {
+    Cur c(t); PCase k; k.cls = c.nat(); k.c = c.nat(); k.r = c.nat(); k.ce = c.nat(); k.ml = c.nat(); k.dc = c.nat(); k.A = c.mat(); k.f = c.vec(); c.expect_end();
+    std::string why; if (!crs_wf(*k.A.crs(), why) || k.A.n != k.A.m || (long)k.f.size() != k.A.n) throw bad_input("shape");
+    if (k.cls < 0 || k.cls > 2 || k.c < 0 || k.c > 3 || k.r < 0 || k.r > 8 || k.ml < 1) throw bad_input("enum");
+    Result r; Out base = papply_once(k, 0);
+    for (int m = 1; m <= 3; ++m) { Out o = papply_once(k, m); if (!same(base, o)) { r.fail(std::string("preconditioner apply() depends on the previous contents of its output vector / the heap: fill 0x00 vs ") + (m == 1 ? "0xFF" : m == 2 ? "0xAA" : "random") + " (" + pclasses[k.cls] + "/" + coarsenings[k.c] + "/" + relaxations[k.r] + ")"); break; } }
+    Line l; l << base.tag; for (double d : base.x) l << hex(d);
+    r.out = l.get(); r.nontrivial = base.tag == "ok" && k.A.n > 1; r.tag("papply").tag(pclasses[k.cls]).tag(relaxations[k.r]).tag(base.tag);
+    return r;
+}
+
 static Result execute(const Toks &t) {
+    if (t[0] == "papply") return execute_papply(t);
     Cur c(t); if (t[0] != "pipe") return Result("bad-op");
     Case k; k.c = c.nat(); k.r = c.nat(); k.s = c.nat(); k.ce = c.nat(); k.ml = c.nat(); k.dc = c.nat(); k.npre = c.nat(); k.npost = c.nat(); k.ncycle = c.nat(); k.maxiter = c.nat();
     k.A = c.mat(); k.f = c.vec(); c.expect_end();
@@ -131,6 +172,12 @@ static void generate(Rng &rng, const Opts &o, std::vector<std::string> &lines) {
         Mat A = rng.coin(1, 5) ? gen_convdiff(rng, n) : dyadic_spd(rng, n, (int)rng.range(0, 3));
         if (rng.coin(1, 5)) A = unsort(rng, A, false);
         emit(lines, rng, A, rng.range(0, 3), rng.range(0, 8), rng.range(0, 8), rng.pick(ces), rng.pick(mls), rng.coin(3, 4));
+    }
+    for (long k = 0; k < N / 2; ++k) {
+        long n = rng.range(2, 20);
+        Mat A = rng.coin(1, 5) ? gen_convdiff(rng, n) : dyadic_spd(rng, n, (int)rng.range(0, 3));
+        Line l; l << "papply" << rng.range(0, 2) << rng.range(0, 3) << rng.range(0, 8) << rng.pick(ces) << rng.pick(mls) << rng.coin(3, 4) << A << gen_vec(rng, A.n, true);
+        lines.push_back(l.get());
     }
     lines.push_back("pipe 9 0 0 2 10 1 1 1 1 5 1 1 1 0 2 1 1");      // unknown coarsening index
 }
